@@ -389,6 +389,10 @@ pub struct Gen {
 	/// stretches of bars closing exactly at their high (or low): one-sided money flow, clv = +-1 (C12)
 	pub one_sided: bool,
 	side: i8,
+	/// a burst of consecutive moves of alternating direction, each several times larger than all the moves before it
+	/// (momentum oscillators swing from one extreme zone to the other on consecutive bars)
+	burst_left: u8,
+	burst_amp: f64,
 	calls: u64,
 	pub rng: Rng,
 	scale: f64,
@@ -403,7 +407,7 @@ impl Gen {
 		let scale = *rng.pick(&[1e-3, 0.37, 1.0, 12.5, 100.0, 3e4]);
 		let cur = scale * (0.5 + rng.unit());
 		let shape = rng.below(8);
-		Self { no_zero_volume: false, no_plateau: false, force_drop_at: None, droughts: false, drought_left: 0, long_regimes: false, regime_left: 0, one_sided: false, side: 0, calls: 0, rng, scale, cur, shape, positive }
+		Self { no_zero_volume: false, no_plateau: false, force_drop_at: None, droughts: false, drought_left: 0, long_regimes: false, regime_left: 0, one_sided: false, side: 0, burst_left: 0, burst_amp: 0.0, calls: 0, rng, scale, cur, shape, positive }
 	}
 	fn finish(&mut self, mut v: f64) -> f64 {
 		if self.positive {
@@ -454,6 +458,16 @@ impl Gen {
 		}
 		let s = self.scale;
 		let u = self.rng.unit();
+		if self.burst_left == 0 && !self.long_regimes && !self.no_plateau && self.rng.chance(0.012) && self.cur.abs() > s * 0.05 {
+			self.burst_left = 4 + self.rng.below(2) as u8;
+			self.burst_amp = self.cur.abs() * 0.0015 * if self.rng.chance(0.5) { 1.0 } else { -1.0 };
+		}
+		if self.burst_left > 0 {
+			self.burst_left -= 1;
+			let v = self.cur + self.burst_amp;
+			self.burst_amp *= -(3.5 + u);
+			return self.finish(v);
+		}
 		let v = match self.shape {
 			0 => s * (u * 2.0 - 0.5),                         // uniform, mostly positive
 			1 => self.cur + s * 0.05 * (u - 0.5),             // random walk
